@@ -1,0 +1,92 @@
+//go:build verif
+// +build verif
+
+package s3mem
+
+// Contracts for the deductive verifier in /verif (gvc); compiled only with the
+// build tag "verif". See the root package's contracts_verif.go for the notation.
+//
+// The object index of a bucket is a skiplist from key (a string inside an
+// interface{}) to *bucketObject; a bucketObject holds the current version
+// (data) and, once versioning has been enabled, the archived versions in a
+// second skiplist keyed by version id.
+
+//@ pred okey(n) = iface(n, string)
+//@ pred hasObj(b, n) = sl_has(b.objects)[okey(n)]
+//@ pred objAt(b, n) = dyn(sl_val(b.objects)[okey(n)], *bucketObject)
+//@ pred vkey(v) = iface(v, gofakes3.VersionID)
+
+// bucketInv: every entry of the index is a well-formed object: right type, its
+// own name, a current version, and archived versions that are *bucketData
+// carrying the id they are filed under.
+//@ pred objInv(o, n) = o != nil && o.name == n && o.data != nil && o.data.name == n &&
+//@     imp(o.versions != nil, allif(k, imp(sl_has(o.versions)[k], typeis(k, gofakes3.VersionID) &&
+//@         typeis(sl_val(o.versions)[k], *bucketData) && dyn(sl_val(o.versions)[k], *bucketData) != nil &&
+//@         dyn(sl_val(o.versions)[k], *bucketData).versionID == dyn(k, gofakes3.VersionID))))
+//@ pred bucketInv(b) = b != nil && b.objects != nil &&
+//@     allif(k, imp(sl_has(b.objects)[k], typeis(k, string) && typeis(sl_val(b.objects)[k], *bucketObject) &&
+//@         objInv(dyn(sl_val(b.objects)[k], *bucketObject), dyn(k, string))))
+
+//@ func (*bucket).setVersioning
+//@ props C05 C09
+//@ requires          b:      b != nil
+//@ ensures [C05]     on:     imp(enabled, b.versioning == gofakes3.VersioningEnabled)
+//@ ensures [C05]     off:    imp(!enabled, b.versioning == ite(old(b.versioning) == gofakes3.VersioningEnabled, gofakes3.VersioningSuspended, old(b.versioning)))
+//@ modifies b.versioning
+
+//@ func (*bucket).object
+//@ props C05 C02 C09
+//@ requires          b:      b != nil && b.objects != nil
+//@ ensures [C05,C02] found:  imp(hasObj(b, objectName) && typeis(sl_val(b.objects)[okey(objectName)], *bucketObject), obj == objAt(b, objectName))
+//@ ensures [C05,C02] absent: imp(!hasObj(b, objectName), obj == nil)
+//@ modifies nothing
+
+//@ func (*bucket).objectVersion
+//@ props C05 C09
+//@ requires          inv:    bucketInv(b)
+//@ ensures [C05]     nokey:  imp(!hasObj(b, objectName), ret0 == nil && errcode(ret1) == gofakes3.ErrNoSuchKey)
+//@ ensures [C05]     cur:    imp(hasObj(b, objectName) && versionID == "" && !objAt(b, objectName).data.deleteMarker,
+//@                             ret1 == nil && ret0 == objAt(b, objectName).data)
+//@ ensures [C05]     marker: imp(hasObj(b, objectName) && versionID == "" && objAt(b, objectName).data.deleteMarker,
+//@                             ret0 == nil && errcode(ret1) == gofakes3.ErrNoSuchKey)
+//@ ensures [C05]     byid:   imp(hasObj(b, objectName) && versionID != "" && objAt(b, objectName).data.versionID == versionID,
+//@                             ret1 == nil && ret0 == objAt(b, objectName).data)
+//@ ensures [C05]     old:    imp(hasObj(b, objectName) && versionID != "" && objAt(b, objectName).data.versionID != versionID &&
+//@                             objAt(b, objectName).versions != nil && sl_has(objAt(b, objectName).versions)[vkey(versionID)],
+//@                             ret1 == nil && ret0 == dyn(sl_val(objAt(b, objectName).versions)[vkey(versionID)], *bucketData))
+//@ ensures [C05]     noversion: imp(hasObj(b, objectName) && versionID != "" && objAt(b, objectName).data.versionID != versionID &&
+//@                             (objAt(b, objectName).versions == nil || !sl_has(objAt(b, objectName).versions)[vkey(versionID)]),
+//@                             ret0 == nil && errcode(ret1) == gofakes3.ErrNoSuchVersion)
+//@ modifies nothing
+
+// Version ids come from the backend's generator through the function-typed
+// field bucket.versionGen. `issued` is the set of ids handed out so far; the
+// generator never repeats one (a counter is part of every id).
+//@ ghost issued : (Array Str Bool)
+//@ funcfield bucket.versionGen
+//@ modifies issued, fieldof(Backend, versionScratch)
+//@ ensures fresh:  ret0 != "" && !old(issued)[ret0] && issued == upd(old(issued), ret0, true)
+
+// idsIssued: every version id stored in the bucket has been issued, and the
+// current version of an object is not also filed among its archived versions.
+//@ pred objIds(o) = issued[o.data.versionID] &&
+//@     imp(o.versions != nil, !sl_has(o.versions)[vkey(o.data.versionID)] &&
+//@         allif(k, imp(sl_has(o.versions)[k], issued[dyn(k, gofakes3.VersionID)])))
+//@ pred idsIssued(b) = allif(k, imp(sl_has(b.objects)[k], objIds(dyn(sl_val(b.objects)[k], *bucketObject))))
+
+//@ func (*bucket).put
+//@ props C05 C02 C10 C09
+//@ let O = objAt(b, name)
+//@ requires          inv:    bucketInv(b) && idsIssued(b)
+//@ requires          item:   item != nil && item.name == name
+//@ ensures [C05,C02] cur:    hasObj(b, name) && O != nil && O.data == item && item.versionID != "" && !old(issued)[item.versionID]
+//@ ensures [C05]     same:   imp(old(hasObj(b, name)), O == old(O))
+//@ ensures [C05]     archive: imp(old(hasObj(b, name)) && b.versioning == gofakes3.VersioningEnabled,
+//@                             O.versions != nil && sl_has(O.versions)[vkey(old(O.data.versionID))] &&
+//@                             dyn(sl_val(O.versions)[vkey(old(O.data.versionID))], *bucketData) == old(O.data))
+//@ ensures [C05]     keep:   imp(old(hasObj(b, name)) && old(O.versions) != nil, O.versions == old(O.versions) &&
+//@                             allif(k, imp(old(sl_has(O.versions))[k], sl_has(O.versions)[k] && sl_val(O.versions)[k] == old(sl_val(O.versions))[k])))
+//@ ensures [C05]     history: imp(old(hasObj(b, name)) && b.versioning != gofakes3.VersioningNone,
+//@                             O.versions != nil && sl_has(O.versions)[vkey(old(O.data.versionID))])
+//@ ensures [C02,C10] others: allstr(n, imp(n != name, hasObj(b, n) == old(hasObj(b, n)) && objAt(b, n) == old(objAt(b, n))))
+//@ ensures           inv:    bucketInv(b) && idsIssued(b)
